@@ -319,13 +319,16 @@ theorem specStruct_names (s : StructM) (st : St F) :
 theorem grows_specEnumEntry (e : EnumEntryM F) (st : St F) : Grows st (specEnumEntry e st).2 :=
   grows_specElem _ _ (grows_internS _ (grows_fresh (Grows.refl st)))
 
-/-- positionally: the `i`-th id holds an `EnumEntry` node with the `i`-th declared symbolic name
-and value -/
+/-- positionally: the `i`-th id holds the `EnumEntry` node of the `i`-th declared entry: its
+normal form `specEnumEntry` (every field: element base, value, numeric value, symbolic name,
+self-clearing flag) -/
 def EntriesStored (st : St F) : List (EnumEntryM F) → List Nat → Prop
   | [], [] => True
   | e :: es, id :: ids =>
     (∃ n : EnumEntryNode F, Stored st id (.enumEntry n) ∧ n.attr.id = id ∧
-      n.symbolic = e.attr.name ∧ n.value = e.value.val) ∧ EntriesStored st es ids
+      n.symbolic = e.attr.name ∧ n.value = e.value.val ∧
+      -- the stored node is the entry's whole normal form (all fields) in some builder state
+      ∃ s, n = (specEnumEntry e s).1) ∧ EntriesStored st es ids
   | _, _ => False
 
 theorem EntriesStored.keeps {a b : St F} (h : Keeps a b) :
@@ -357,7 +360,8 @@ theorem enumEntriesS_dev (pr : Profile) (hdev : pr.debugAsserts = true) (es : Li
         obtain ⟨rfl, rfl⟩ := h
         obtain ⟨k1, f1⟩ := storeNodeS_dev pr hdev _ _ _ _ hs
         obtain ⟨k2, f2⟩ := ih s1 r.1 r.2 (by rw [hr])
-        refine ⟨((grows_specEnumEntry e st).keeps.trans k1).trans k2, ⟨_, k2.2 _ _ f1, rfl, rfl, rfl⟩, f2⟩
+        refine ⟨((grows_specEnumEntry e st).keeps.trans k1).trans k2,
+          ⟨_, k2.2 _ _ f1, rfl, rfl, rfl, st, rfl⟩, f2⟩
       | err x => rw [hr] at h; cases h
       | panic => rw [hr] at h; cases h
     | err x => rw [hs] at h; cases h
